@@ -212,6 +212,8 @@ class Interp:
         """interpret FuncInfo `func` with positional args (including self object)"""
         if depth > self.max_depth:
             raise AnalysisError("inlining depth exceeded at %s" % func.qualname)
+        if func.opaque_decorators:
+            raise AnalysisError("%s is decorated with @%s: calling it is not calling its body (memoisation / compilation / wrapping not modelled)" % (func.qualname, ", @".join(func.opaque_decorators)))
         kwargs = kwargs or {}
         env = {}
         params = func.params
